@@ -1,6 +1,155 @@
-import Log4rsModel.Rolling.Model
+import Log4rsModel.Rolling.LemmasRoller
+/-
+C06 — Size trigger rolls exactly when the limit is exceeded; size accounting is exact.
+Model: `Rolling/Model.lean` (`append`, `getWriter`, `process`) with `sizeTrigger N`
+(`len_estimate() > limit`, post-process). Histories are arbitrary lists of appends (any record, any
+chunking, any injected roller fault), restarts and clock ticks, from any initial disk, in append and
+truncate mode.
+-/
 namespace Log4rs.Rolling
+open Log4rs.Roller
 
-theorem C06_placeholder : True := trivial
+variable {σ : Type}
+
+/-- the rolling appender with a size trigger of limit `N` and any roller -/
+def sizeCfg (path : Path) (appendMode : Bool) (N : Nat) (roll : RollFn) : Cfg Unit :=
+  { path, appendMode, trig := sizeTrigger N, roll }
+
+/-- At every policy consultation of every history — whatever the trigger and the roller — the
+length shown to the policy (`len_estimate()`) equals the true size of the active file on disk at
+that moment: append mode seeds the counter from the pre-existing size, truncate mode empties the
+file and starts from 0, and after every (re)open the same holds. -/
+theorem C06_len_is_disk_size (cfg : Cfg σ) (d : Disk) (t0 : σ) (now : Nat) (ops : List Op) :
+    ∀ e ∈ trace cfg (init cfg d t0 now) ops, ∀ out, e.1 = some out → ∃ L, out.consult = some (L, L) := by
+  refine trace_forall cfg (P := WF cfg) (Q := fun e => ∀ out, e.1 = some out → ∃ L, out.consult = some (L, L))
+    ?_ ops _ (WF_init cfg d t0 now)
+  intro s op hwf
+  refine ⟨WF_applyOp cfg s op hwf, ?_⟩
+  cases op with
+  | append r f =>
+    intro out h
+    have := (append_wf cfg s r (faultFn f) hwf).2
+    simp only [applyOp] at h
+    rw [← Option.some.inj h]
+    exact this
+  | restart => intro out h; simp [applyOp] at h
+  | tick dt => intro out h; simp [applyOp] at h
+
+/-- One append with a size trigger: the size shown is exactly what was in the file when the writer
+was (re)opened plus the bytes of the record, and the roller is invoked iff that size exceeds `N` —
+never earlier, never deferred. -/
+theorem C06_rolls_iff_exceeds (path : Path) (am : Bool) (N : Nat) (roll : RollFn) (s : St Unit)
+    (r : Rec) (fault : Nat → Bool) (hwf : WF (sizeCfg path am N roll) s) :
+    let L := (openView (sizeCfg path am N roll) s).length + (encBytes r).length
+    (append (sizeCfg path am N roll) s r fault).1.consult = some (L, L) ∧
+    ((append (sizeCfg path am N roll) s r fault).1.rolled.isSome ↔ L > N) := by
+  intro L
+  obtain ⟨hc, _, _, hno, _, hyes⟩ :=
+    append_post_spec (sizeCfg path am N roll) s r fault hwf rfl _ _
+      (append (sizeCfg path am N roll) s r fault).1 (append (sizeCfg path am N roll) s r fault).2 rfl rfl rfl
+  have hL : (openView (sizeCfg path am N roll) s ++ encBytes r).length = L := by simp [L]
+  rw [hL] at hc hno hyes
+  refine ⟨hc, ?_⟩
+  by_cases hgt : L > N
+  · have hans : ((sizeCfg path am N roll).trig.fire s.tst L s.now).1 = .yes := by
+      simp [sizeCfg, sizeTrigger, hgt]
+    obtain ⟨d1, _, _, _, _, h⟩ := hyes hans
+    rcases h with ⟨_, _, _, hr⟩ | ⟨_, _, _, hr⟩ <;> simp [hr, hgt]
+  · have hans : ((sizeCfg path am N roll).trig.fire s.tst L s.now).1 = .no := by
+      simp [sizeCfg, sizeTrigger, hgt]
+    simp [(hno hans).2.1, hgt]
+
+/-- The same over whole histories: in every history, at every append, the roller runs iff the true
+size of the active file after the write exceeds `N`. -/
+theorem C06_rolls_iff_exceeds_history (path : Path) (am : Bool) (N : Nat) (roll : RollFn) (d : Disk) (now : Nat)
+    (ops : List Op) :
+    ∀ e ∈ trace (sizeCfg path am N roll) (init (sizeCfg path am N roll) d () now) ops, ∀ out, e.1 = some out →
+      ∃ L, out.consult = some (L, L) ∧ (out.rolled.isSome ↔ L > N) := by
+  refine trace_forall _ (P := WF (sizeCfg path am N roll))
+    (Q := fun e => ∀ out, e.1 = some out → ∃ L, out.consult = some (L, L) ∧ (out.rolled.isSome ↔ L > N))
+    ?_ ops _ (WF_init _ d () now)
+  intro s op hwf
+  refine ⟨WF_applyOp _ s op hwf, ?_⟩
+  cases op with
+  | append r f =>
+    intro out h
+    simp only [applyOp] at h
+    rw [← Option.some.inj h]
+    exact ⟨_, C06_rolls_iff_exceeds path am N roll s r (faultFn f) hwf⟩
+  | restart => intro out h; simp [applyOp] at h
+  | tick dt => intro out h; simp [applyOp] at h
+
+/-- After every successful append of every history the active file has just been rotated away or
+holds at most `N` bytes — including `N = 0`, a pre-existing file larger than `N` and restarts —
+for every roller that honours `Roll::roll`'s contract (`RollGone`). -/
+theorem C06_bounded_after_append (path : Path) (am : Bool) (N : Nat) (roll : RollFn) (hroll : RollGone roll path)
+    (d : Disk) (now : Nat) (ops : List Op) :
+    ∀ e ∈ trace (sizeCfg path am N roll) (init (sizeCfg path am N roll) d () now) ops, ∀ out, e.1 = some out →
+      out.res = .ok → e.2.disk.get? path = none ∨ ∃ a, e.2.disk.get? path = some a ∧ a.length ≤ N := by
+  refine trace_forall _ (P := WF (sizeCfg path am N roll))
+    (Q := fun e => ∀ out, e.1 = some out → out.res = .ok →
+      e.2.disk.get? path = none ∨ ∃ a, e.2.disk.get? path = some a ∧ a.length ≤ N)
+    ?_ ops _ (WF_init _ d () now)
+  intro s op hwf
+  refine ⟨WF_applyOp _ s op hwf, ?_⟩
+  cases op with
+  | restart => intro out h; simp [applyOp] at h
+  | tick dt => intro out h; simp [applyOp] at h
+  | append r f =>
+    intro out h hok
+    simp only [applyOp] at h ⊢
+    have hout := (Option.some.inj h).symm
+    obtain ⟨_, _, _, hno, herr, hyes⟩ :=
+      append_post_spec (sizeCfg path am N roll) s r (faultFn f) hwf rfl _ _
+        (append (sizeCfg path am N roll) s r (faultFn f)).1 (append (sizeCfg path am N roll) s r (faultFn f)).2 rfl rfl rfl
+    by_cases hgt : (openView (sizeCfg path am N roll) s ++ encBytes r).length > N
+    · have key : ∀ L, L > N → ((sizeCfg path am N roll).trig.fire s.tst L s.now).1 = .yes := by
+        intro L h; simp [sizeCfg, sizeTrigger, h]
+      have hans := key _ hgt
+      obtain ⟨d1, _, _, _, hd, hres⟩ := hyes hans
+      rcases hres with ⟨x, hx, _, _⟩ | ⟨e, _, hr, _⟩
+      · left
+        rw [hd]
+        exact hroll (faultFn f) d1 x _ (by rw [← hx]; rfl)
+      · rw [hout, hr] at hok
+        cases hok
+    · have key : ∀ L, ¬ L > N → ((sizeCfg path am N roll).trig.fire s.tst L s.now).1 = .no := by
+        intro L h; simp [sizeCfg, sizeTrigger, h]
+      have hans := key _ hgt
+      obtain ⟨_, _, ⟨w, _, _, hg, _⟩, _⟩ := hno hans
+      right
+      exact ⟨_, hg, Nat.le_of_not_gt hgt⟩
+
+/-- the contract holds for the delete roller and for the fixed-window roller (any base, count,
+compression) whose slot `base` is not the log file itself -/
+theorem C06_rollers_honour_contract (path : Path) (r : RollerCfg) (h : r.nameOf r.base ≠ path) :
+    RollGone (fun p f d => deleteRoll p f d) path ∧ RollGone (fixedWindowRoll r) path :=
+  ⟨rollGone_delete path, rollGone_fixedWindow r path h⟩
+
+/-- the size at (re)open: append mode keeps the pre-existing content and counts it, truncate mode
+empties the file -/
+theorem C06_open_seeds_len (cfg : Cfg σ) (d : Disk) (t0 : σ) (now : Nat) :
+    Opened cfg (init cfg d t0 now) (if cfg.appendMode then fileOf cfg d else []) := by
+  have h := (getWriter_spec cfg { disk := d, writer := none, tst := cfg.trig.reinit t0 now, now := now } (Or.inl rfl)).1
+  simpa [openView, init, build] using h
+
+/-! ### non-vacuity (tests on samples) -/
+
+private def demoPath : Path := ['a']
+
+/-- limit 0, pre-existing 3 bytes kept in append mode: the first 1-byte record makes 4 > 0 and rolls -/
+example :
+    let cfg := sizeCfg demoPath true 0 (fun p f d => deleteRoll p f d)
+    let s0 := init cfg (Disk.empty.set demoPath [1, 2, 3]) () 0
+    (append cfg s0 [[9]] (fun _ => false)).1 = { res := .ok, consult := some (4, 4), rolled := some true } := by
+  decide +kernel
+
+/-- limit 7: a record that makes exactly 7 bytes does not roll, one more byte does -/
+example :
+    let cfg := sizeCfg demoPath false 7 (fun p f d => deleteRoll p f d)
+    let s0 := init cfg Disk.empty () 0
+    let s1 := (append cfg s0 [[1, 2, 3], [4, 5, 6, 7]] (fun _ => false))
+    s1.1.rolled = none ∧ s1.1.consult = some (7, 7) ∧ (append cfg s1.2 [[8]] (fun _ => false)).1.rolled = some true := by
+  decide +kernel
 
 end Log4rs.Rolling
